@@ -33,7 +33,20 @@ Total(lens, k, acc) == IF k > Len(lens) THEN acc
 SerSizeOK(ln) == LET t == AddSmall(MulSmall(Total(ln.lens, 1, <<2>>), ln.mult), ln.wrap) IN   \* (the string occurs mult times inside wrappers adding wrap bytes)
                  IF Fits(t, 8) THEN Eq(ln.size, t) ELSE Strip(ln.size) = <<>>   \* the exact mathematical total, or 0
 
-LineOK(ln) == CASE ln.e = "mu" -> MuOK(ln) [] ln.e = "e2e" -> E2eOK(ln) [] ln.e = "grow" -> GrowOK(ln) [] OTHER -> SerSizeOK(ln)
+(* a definite string head (1 + 8 bytes) declaring n payload bytes, seen through a window of win bytes: the decoder may report *)
+(* the string as present only if head + payload really fit; otherwise it asks for more than it was given                    *)
+ClaimOK(ln) == LET need == AddSmall(ln.n, 9) IN
+  /\ ln.st # "error"
+  /\ (ln.st = "fin" => Geq(ln.win, need) /\ ln.calls = 1)
+  /\ (ln.st = "nedata" => Gt(ln.req, ln.win) /\ Leq(ln.req, need) /\ ln.calls = 0 /\ Strip(ln.read) = <<>>)
+  /\ (Gt(need, ln.win) => ln.st = "nedata")
+(* a definite string item claiming n bytes serialized into a buffer of buf bytes: written only if head + n fits, and then exactly that *)
+SerDefOK(ln) == LET need == AddSmall(ln.n, 1 + ShortestArgw(ln.n)) IN
+  /\ (Strip(ln.ret) # <<>> => Eq(ln.ret, need) /\ Geq(ln.buf, need))
+  /\ (Strip(ln.size) = <<>> \/ Eq(ln.size, need)) /\ (Fits(need, 8) => Eq(ln.size, need))
+
+LineOK(ln) == CASE ln.e = "mu" -> MuOK(ln) [] ln.e = "e2e" -> E2eOK(ln) [] ln.e = "grow" -> GrowOK(ln)
+                [] ln.e = "claim" -> ClaimOK(ln) [] ln.e = "serdef" -> SerDefOK(ln) [] OTHER -> SerSizeOK(ln)
 Init == l = 1
 Next == l <= Len(TraceLog) /\ LineOK(TraceLog[l]) /\ l' = l + 1
 Spec == Init /\ [][Next]_l
